@@ -156,7 +156,7 @@ def run_property(prop: str, tier: str, tree: core.Tree | None = None, rules=None
             rec = R(rd, tree, tier)
             rd.fn(rec)
             n = len(rec.instances)
-            if n < rd.floor:
+            if n < rd.floor and not rec.findings:
                 raise core.AnalysisError(
                     f"{rd.rid}: matched {n} instances, below the confirmed floor {rd.floor} "
                     f"(an anchor moved or vanished; the rule must not pass vacuously)"
